@@ -155,6 +155,17 @@ hs_check("C02",
     technique="deterministic simulation with an on-path attacker rewriting the certificate bytes that travel in the clear in the first handshake message (structure-aware and blind mutations, P-256 low/high-S twin, foreign certificate, version field), with blocklists naming either twin fingerprint",
     level_text="Seeded search over tampered first messages: a responder that completes must have accepted a certificate whose decoded identity (name, networks, unsafe networks, groups, CA flag, validity, issuer, curve, public key) equals the issued one; the only other signature accepted for unchanged content is the P-256 twin; identities blocklisted directly or through their twin fingerprint never complete in either signature form. The PEM encoding does not cross the simulated network and is outside this check. Evidence, not proof.")
 
+check("C26",
+    pkg="udp", engine="C-component", scenarios=["C26.kernel"],
+    quick=tier(60000, 25), thorough=tier(2000000, 600, shrink_s=60),
+    technique="deterministic fault-injecting simulation of the kernel behind the real batchWriter (sendFn seam): the simulated sendmmsg decodes the prepared mmsghdr/iovec/sockaddr/cmsg arrays and answers with seeded short counts and per-entry errors; oracle over the kernel's view",
+    rule="one run = one batch of 0-420 datagrams over 1-6 destinations (v4/v6 destinations on v4 or v6 sockets, sizes forming and breaking offload runs, empty and oversized datagrams), GSO on/off, max segments 4/16/63/127, and 0-12 kernel faults (short count at any entry, EIO on an offloaded entry => GSO disable and replay, EIO/ENOBUFS/EPERM/EMSGSIZE/ENETUNREACH/EINVAL on the first remaining entry); distinct = distinct abstract trace hash; non-trivial = at least one kernel fault fired on a batch of more than 3 datagrams",
+    level_text="Seeded search over batches x kernel fault sequences: the simulated kernel reads the entries exactly as sendmmsg(2) would (pointer-checked against the input buffers) and the oracle uses only that view: each input datagram accepted at most once, reported count = accepted datagrams, per-destination order preserved, every offloaded entry has one destination, equal segments except a shorter last, at most max segments and 65000 bytes, plain entries carry exactly one datagram, nothing unroutable reaches the kernel. Evidence, not proof.",
+    level_note="Trusted: the simulated kernel's decoder and accounting. The real sendmmsg syscall, sockets and the EINTR/ENOBUFS retry loop inside batchWriter.sendmmsg are not executed (sendFn is the seam the code provides for tests).",
+    real=["udp.batchWriter.WriteBatch, planRun, writeEntryCmsg, writeSockaddr, prepareWriteMessages"], stub=["sendmmsg(2) (simulated kernel behind batchWriter.sendFn)", "socket"],
+    assumptions=["the kernel never reports more entries than it was given and reports entries in order (sendmmsg semantics)"],
+)
+
 NOT_APPLICABLE = {
     "C03": "pure encode/decode round trip over input bytes; no clock, schedule, fault or second party for a simulator to control",
     "C04": "pure function of (certificate to sign, signer); offline CLI; nothing to schedule or fault",
